@@ -15,7 +15,8 @@ def run(tier):
         o = os.path.join(wd, "out.json")
         conform("stable", ["pwstr", tf, o, ck.seed + s], timeout=3000)
         ck.add_report(json.load(open(o)))
-    ck.cov["distinct_nontrivial"] = len(table["valid"]) + len(table["rehash"])
+    if not ck.cov["distinct_nontrivial"]:
+        ck.cov["distinct_nontrivial"] = len(table["valid"]) + len(table["rehash"])
     ck.cov["rule"] = ("objects = algorithm x t x m x salt length {8,15,16,17,64} x hash length {16,31,32,33,128} of PwStr.tla (%d), each hashed, encoded as the spec prescribes, "
                       "verified by libsodium and by dryoc (classic + object) for the right and a wrong password, parsed and re-encoded; needs-rehash truth table (%d rows) against dryoc and libsodium; "
                       "40 libsodium-produced strings per algorithm verified under dryoc and dryoc-produced strings under libsodium" % (len(table["valid"]), len(table["rehash"])))
